@@ -290,7 +290,7 @@ static void init_template(void)
 struct sdesc { int frame; uint8_t cb; int16_t prio; uint8_t p1, p2; uint16_t flags; };
 struct shape { int nframes, nitems, trailing_endframe; uint16_t p3; struct sdesc d[8]; };
 #define DT (TDMA_IFLG_TPU | TDMA_IFLG_DSP)
-#define NSHAPES 7
+#define NSHAPES 8
 static const struct shape shapes[NSHAPES] = {
 	/* 0: one frame, one item */
 	{ 1, 1, 0, 0xB0A1, { { 0, CB_LOG1, 0, 0x21, 0x01, 0 } } },
@@ -308,6 +308,9 @@ static const struct shape shapes[NSHAPES] = {
 	/* 6: synthetic six-frame set, 2+1+1+1+1+2 items (sets 5 and 6 are used by the set sweep only) */
 	{ 6, 8, 0, 0xB6A7, { { 0, CB_LOG1, 1, 0x35, 0x15, 0 }, { 0, CB_LOG2, -1, 0x36, 0x16, 0 }, { 1, CB_LOG1, 0, 0x37, 0x17, 0 }, { 2, CB_LOG2, 0, 0x38, 0x18, DT },
 			     { 3, CB_LOG1, 0, 0x39, 0x19, 0 }, { 4, CB_LOG2, 0, 0x3A, 0x1A, 0 }, { 5, CB_LOG1, 9, 0x3B, 0x1B, 0 }, { 5, CB_LOG2, 9, 0x3C, 0x1C, DT } } },
+	/* 7: five frames of which the second and third are idle (three end-of-frame markers in a row), as in the
+	 * firmware's power-measurement / RACH sets; trailing marker (set sweep only) */
+	{ 5, 4, 1, 0xB7A8, { { 0, CB_LOG1, 0, 0x3D, 0x1D, DT }, { 3, CB_LOG2, 4, 0x3E, 0x1E, 0 }, { 3, CB_LOG1, -4, 0x3F, 0x1F, 0 }, { 4, CB_LOG2, 0, 0x20, 0x20, 0 } } },
 };
 /* the array handed to tdma_schedule_set() is generated from the description with the header's macros */
 static struct tdma_sched_item setarr[NSHAPES][20];
@@ -1061,7 +1064,26 @@ static int do_setsweep(int lo, int hi)
 		if (!violated && nref) viol("C08:not-executed", "%d item(s) of the set never ran within 30 frames", nref);
 		ncases++;
 	}
+	/* reset sweep: an item (single / three-item set) at every offset 0..24 from every ring position, and a ring
+	 * with an item in every frame; tdma_sched_reset(); 30 frame steps: nothing of a later frame may ever run */
+	unsigned long nreset_cases = 0;
+	for (pos = lo; pos < hi; pos++) for (off = 0; off <= NB; off++) for (var = 0; var < 2; var++) {
+		char *p = casebuf;
+		if (off == NB && var) continue;
+		violated = 0;
+		memcpy(&SCHED, &tmpl, sizeof(tmpl));
+		now = 1000; nref = 0; nlog = 0; log_lost = 0;
+		for (i = 0; i < pos; i++) { ev_exec(); ev_advance(); scrub(); p += sprintf(p, "t,"); }
+		if (off == NB) for (i = 0; i < NB; i++) { ev_schedule(i, (i + pos) % 8); p += sprintf(p, "s%d.%d,", i, (i + pos) % 8); }
+		else if (var) { ev_set(off, 1); p += sprintf(p, "S%d.1,", off); }
+		else { ev_schedule(off, 3); p += sprintf(p, "s%d.3,", off); }
+		ev_reset(); p += sprintf(p, "R");
+		scrub();
+		for (i = 0; i < 30 && !violated; i++) { p += sprintf(p, ",t"); ev_exec(); ev_advance(); scrub(); }
+		nreset_cases++;
+	}
 	i = report_unconfirmed();
+	fprintf(res, "{\"resetsweep_cases\": %lu}\n", nreset_cases);
 	fprintf(res, "{\"setsweep_cases\": %lu, \"setsweep_skipped_beyond_depth\": %lu, \"set_calls_nonfirst_frame_on_slot24\": %lu, \"set_calls_wrapping_ring\": %lu, \"history_dependent_keys\": %d, \"verify_requests\": %lu, %s, \"violations\": %lu}\n",
 		ncases, nskipped, n_set_nonfirst_slot24, n_set_wrapping, i, n_verify, hist_json(), nviol);
 	return nviol ? 1 : 0;
